@@ -257,6 +257,11 @@ fn gen_leaves(rng: &mut Rng, n: usize, mode: u64) -> (Vec<Vec<u8>>, bool) {
         1 => ((0..n).map(|i| { let mut v = rng.bytes(1020); v.extend((i as u32).to_le_bytes()); v }).collect(), true), // requests
         2 => ((0..n).map(|i| (i as u32).to_le_bytes()[..(1 + i / 256).min(4)].to_vec()).map(|mut v| { v.push(7); v }).collect(), n <= 256),
         3 => (vec![rng.bytes(8); n], n == 1),                                       // all equal
+        5 => {   // long leaves (a maximum-size request and beyond) that share everything but their LAST bytes
+            let len = *rng.pick(&[1499usize, 1500, 1501, 1504, 2048, 4096]);
+            let prefix = rng.bytes(len - 4);
+            ((0..n).map(|i| { let mut v = prefix.clone(); v.extend((i as u32).to_le_bytes()); v }).collect(), true)
+        }
         _ => ((0..n).map(|i| if i == 0 { vec![] } else { let l = rng.below(40) as usize; let mut v = rng.bytes(l); v.extend((i as u32).to_le_bytes()); v }).collect(), true), // includes empty leaf
     }
 }
@@ -275,7 +280,7 @@ pub fn record(seed: u64, tier: &str, out_path: &str) {
             let mut tree = MerkleTree::new(version_of(p));
             let sizes: Vec<usize> = if pass == 0 { (1..=255).collect() } else { (1..=255).rev().collect() };
             for n in sizes {
-                let mode = rng.below(5);
+                let mode = rng.below(6);
                 let (leaves, distinct) = gen_leaves(&mut rng, n, mode);
                 let ev = observe_batch(&mut tree, prof, &leaves, distinct, &mut rng, thorough && n <= 64);
                 writeln!(out, "{}", ev).unwrap();
@@ -294,7 +299,7 @@ pub fn record(seed: u64, tier: &str, out_path: &str) {
                 writeln!(out, "{}", json!({"ev": "new", "prof": p.tag(), "node_w": prof.node_w, "root_w": prof.root_w})).unwrap();
                 let mut tree = MerkleTree::new(version_of(p));
                 for n in [a, b] {
-                    let mode = rng.below(5);
+                    let mode = rng.below(6);
                     let (leaves, distinct) = gen_leaves(&mut rng, n, mode);
                     let ev = observe_batch(&mut tree, prof, &leaves, distinct, &mut rng, false);
                     writeln!(out, "{}", ev).unwrap();
@@ -311,7 +316,7 @@ pub fn record(seed: u64, tier: &str, out_path: &str) {
             let len = rng.range(3, 8);
             for _ in 0..len {
                 let n = if rng.chance(1, 2) { rng.range(1, 9) } else { rng.range(1, 255) } as usize;
-                let mode = rng.below(5);
+                let mode = rng.below(6);
                     let (leaves, distinct) = gen_leaves(&mut rng, n, mode);
                 let ev = observe_batch(&mut tree, prof, &leaves, distinct, &mut rng, false);
                 writeln!(out, "{}", ev).unwrap();
